@@ -63,10 +63,12 @@ static void pairs(Report & R, bool thorough)
             if (&A == &B) continue;
             ++npairs;
             const int rots = thorough ? 12 : 4;
-            for (int rot = 0; rot < rots; ++rot) {
-                const std::string cas = A.name + " -> " + B.name + " rot" + std::to_string(rot);
+            for (int rot = 0; rot <= rots; ++rot) {
+                // the last round: the several-KiB variant of the stack (more than one buffer-full for any loader)
+                const int var = rot == rots ? 4 : 0;
+                const std::string cas = A.name + " -> " + B.name + " rot" + std::to_string(rot) + (var ? " large" : "");
                 const std::string key = "portable:" + A.key + "->" + B.key;
-                std::string D = A.dump(0, -1000 - rot);
+                std::string D = A.dump(var, -1000 - rot);
                 std::istringstream is(D);
                 std::string G, what;
                 LoadOutcome lo = B.load(is.rdbuf(), &G, &what);
@@ -189,16 +191,20 @@ static unsigned g_vg_errors = 0;
 static const uint32_t KNOWN_TAGS[] = {0xAB000000u, 0xAB010000u, 0xAB010001u, 0xAB010002u, 0xAB020000u, 0xAB020001u, 0xAB020002u, 0xAB020003u, 0xAB020004u,
                                       0xAB020005u, 0xAB020006u, 0xAB020007u, 0xAB020008u, 0xAB020009u, 0xAB020010u, 0xAB110000u};
 
-static void must_throw(Report & R, const IoEntry & E, const std::string & bytes, long fail_after, const std::string & kind, const std::string & cas)
+static void must_throw_once(Report & R, const IoEntry & E, const std::string & bytes, long fail_after, const std::string & kind, const std::string & cas0, int mask)
 {
+    const std::string cas = mask ? cas0 + " exceptions(" + std::to_string(mask) + ")" : cas0;
     std::snprintf(g_sh->desc, sizeof g_sh->desc, "%s", cas.c_str());
     ++g_sh->cases;
     fault_streambuf sb(bytes, fail_after);
     std::string what;
+    vp::g_stream_exceptions = mask;
     LoadOutcome lo = E.load(&sb, nullptr, &what);
+    vp::g_stream_exceptions = 0;
     ++R.evaluations;
     ++R.transitions;
     R.counters["outcome_" + std::string(lo == LO_THROW ? "exception" : lo == LO_BADALLOC ? "bad_alloc" : "returned")]++;
+    if (mask) R.counters["cases_with_stream_exceptions_enabled"]++;
     if (lo == LO_RETURNED) R.viol("accepted:" + kind + ":" + E.key, "a field was returned for a damaged stream (" + kind + ")", cas);
     if (RUNNING_ON_VALGRIND) {
         unsigned n = VALGRIND_COUNT_ERRORS;
@@ -206,6 +212,22 @@ static void must_throw(Report & R, const IoEntry & E, const std::string & bytes,
             g_vg_errors = n;
             R.viol("uninitialised:" + kind + ":" + E.key, "memcheck reported an error (decision on uninitialised data / invalid access) while loading", cas);
         }
+    }
+}
+static bool g_all_masks = false;
+// every damaged stream is put to the loader as a caller with the default exception mask would, and again as a caller who
+// asked the stream to throw by itself (is.exceptions(failbit|badbit), or eofbit too): either way an exception has to come
+// back - not std::terminate from an exception thrown during unwinding
+static void must_throw(Report & R, const IoEntry & E, const std::string & bytes, long fail_after, const std::string & kind, const std::string & cas)
+{
+    static long n = 0;
+    const int FB = static_cast<int>(std::ios_base::failbit | std::ios_base::badbit), EFB = FB | static_cast<int>(std::ios_base::eofbit);
+    must_throw_once(R, E, bytes, fail_after, kind, cas, 0);
+    if (g_only_caseno >= 0 || g_all_masks) {
+        must_throw_once(R, E, bytes, fail_after, kind, cas, FB);
+        must_throw_once(R, E, bytes, fail_after, kind, cas, EFB);
+    } else {
+        must_throw_once(R, E, bytes, fail_after, kind, cas, (n++ % 2) ? EFB : FB);
     }
 }
 
@@ -306,6 +328,7 @@ static void faults_for_dump(Report & R, const IoEntry & E0, bool thorough, long 
 
 static void faults(Report & R0, bool thorough, long stride, long shard, long nshards)
 {
+    g_all_masks = thorough;
     g_sh = static_cast<Shared *>(mmap(nullptr, sizeof(Shared), PROT_READ | PROT_WRITE, MAP_SHARED | MAP_ANONYMOUS, -1, 0));
     long eidx = -1;
     for (auto & E : io_registry()) {
